@@ -397,6 +397,88 @@ service S {
 		Files: [][2]string{{"a/b/deep.frugal", "struct B {\n}\n"}, {"near.frugal", "struct C {\n}\n"}, {"w.frugal", "include \"a/b/deep.frugal\"\ninclude \"./near.frugal\"\n\nstruct A {\n  1: deep.B b,\n  2: near.C c\n}\n"}},
 		Model: []*idl.File{mfile("deep", mstruct("B")), mfile("near", mstruct("C")), rootDeep}})
 
+	// different files of one base name in different directories
+	withInc := func(f *idl.File, paths ...string) *idl.File {
+		for _, p := range paths {
+			f.Includes = append(f.Includes, &idl.Include{Path: p})
+		}
+		return f
+	}
+	add(lexClass{Class: "same_base_name_includes", Pinned: "passes",
+		Rule: "an include path is resolved relative to the including file: two different files with the same base name in different directories are two files, and every includer gets the one of its own path",
+		Variants: []lexVariant{
+			{Name: "sibling-of-nested-file",
+				Files: [][2]string{
+					{"types.frugal", "enum Color {\n  RED\n}\n\nstruct Box {\n  1: i32 top\n}\n"},
+					{"sub/types.frugal", "enum Shade {\n  DARK,\n  LIGHT\n}\n\nstruct Box {\n  1: string label,\n  2: Shade shade\n}\n"},
+					{"sub/widgets.frugal", "include \"types.frugal\"\n\nstruct Widget {\n  1: types.Box box,\n  2: types.Shade shade\n}\n"},
+					{"main.frugal", "include \"types.frugal\"\ninclude \"sub/widgets.frugal\"\n\nstruct Main {\n  1: types.Box box,\n  2: types.Color c,\n  3: widgets.Widget w\n}\n"},
+				},
+				Model: []*idl.File{
+					mfile("types", menum("Color", mval("RED", 0)), mstruct("Box", mfield(1, tI32, "top"))),
+					mfile("types", menum("Shade", mval("DARK", 0), mval("LIGHT", 1)), mstruct("Box", mfield(1, tString, "label"), mfield(2, idl.T("Shade"), "shade"))),
+					withInc(mfile("widgets", mstruct("Widget", mfield(1, idl.T("types.Box"), "box"), mfield(2, idl.T("types.Shade"), "shade"))), "types.frugal"),
+					withInc(mfile("main", mstruct("Main", mfield(1, idl.T("types.Box"), "box"), mfield(2, idl.T("types.Color"), "c"), mfield(3, idl.T("widgets.Widget"), "w"))), "types.frugal", "sub/widgets.frugal"),
+				}},
+			{Name: "two-directories-same-shape", // both files parse and validate whichever is served: only the tree tells
+				Files: [][2]string{
+					{"a/common.frugal", "struct C {\n  1: i32 a\n}\n"},
+					{"b/common.frugal", "struct C {\n  1: string b\n}\n"},
+					{"a/x.frugal", "include \"common.frugal\"\n\nstruct X {\n  1: common.C c\n}\n"},
+					{"b/y.frugal", "include \"common.frugal\"\n\nstruct Y {\n  1: common.C c\n}\n"},
+					{"main.frugal", "include \"a/x.frugal\"\ninclude \"b/y.frugal\"\n\nstruct M {\n  1: x.X x,\n  2: y.Y y\n}\n"},
+				},
+				Model: []*idl.File{
+					mfile("common", mstruct("C", mfield(1, tI32, "a"))),
+					mfile("common", mstruct("C", mfield(1, tString, "b"))),
+					withInc(mfile("x", mstruct("X", mfield(1, idl.T("common.C"), "c"))), "common.frugal"),
+					withInc(mfile("y", mstruct("Y", mfield(1, idl.T("common.C"), "c"))), "common.frugal"),
+					withInc(mfile("main", mstruct("M", mfield(1, idl.T("x.X"), "x"), mfield(2, idl.T("y.Y"), "y"))), "a/x.frugal", "b/y.frugal"),
+				}},
+			{Name: "parent-directory",
+				Files: [][2]string{
+					{"common.frugal", "struct C {\n  1: i32 a\n}\n"},
+					{"sub/common.frugal", "struct C {\n  1: string b\n}\n"},
+					{"sub/deep/w.frugal", "include \"../../common.frugal\"\n\nstruct W {\n  1: common.C c\n}\n"},
+					{"main.frugal", "include \"sub/common.frugal\"\ninclude \"sub/deep/w.frugal\"\n\nstruct M {\n  1: common.C c,\n  2: w.W w\n}\n"},
+				},
+				Model: []*idl.File{
+					mfile("common", mstruct("C", mfield(1, tI32, "a"))),
+					mfile("common", mstruct("C", mfield(1, tString, "b"))),
+					withInc(mfile("w", mstruct("W", mfield(1, idl.T("common.C"), "c"))), "../../common.frugal"),
+					withInc(mfile("main", mstruct("M", mfield(1, idl.T("common.C"), "c"), mfield(2, idl.T("w.W"), "w"))), "sub/common.frugal", "sub/deep/w.frugal"),
+				}},
+		}})
+
+	add(lexClass{Class: "same_base_name_transitive_include", Pinned: "passes",
+		Rule: "a cycle is a file that reaches itself: a file may transitively (or directly) include a different file that shares its base name",
+		Variants: []lexVariant{
+			{Name: "through-a-helper",
+				Files: [][2]string{
+					{"b/common.frugal", "struct K {\n}\n"},
+					{"a/helpers.frugal", "include \"../b/common.frugal\"\n\nstruct H {\n  1: common.K k\n}\n"},
+					{"a/common.frugal", "include \"helpers.frugal\"\n\nstruct C {\n  1: helpers.H h\n}\n"},
+					{"main.frugal", "include \"a/common.frugal\"\n\nstruct M {\n  1: common.C c\n}\n"},
+				},
+				Model: []*idl.File{
+					mfile("common", mstruct("K")),
+					withInc(mfile("helpers", mstruct("H", mfield(1, idl.T("common.K"), "k"))), "../b/common.frugal"),
+					withInc(mfile("common", mstruct("C", mfield(1, idl.T("helpers.H"), "h"))), "helpers.frugal"),
+					withInc(mfile("main", mstruct("M", mfield(1, idl.T("common.C"), "c"))), "a/common.frugal"),
+				}},
+			{Name: "directly",
+				Files: [][2]string{
+					{"b/common.frugal", "struct K {\n  1: string b\n}\n"},
+					{"a/common.frugal", "include \"../b/common.frugal\"\n\nstruct C {\n  1: common.K k\n}\n"},
+					{"main.frugal", "include \"a/common.frugal\"\n\nstruct M {\n  1: common.C c\n}\n"},
+				},
+				Model: []*idl.File{
+					mfile("common", mstruct("K", mfield(1, tString, "b"))),
+					withInc(mfile("common", mstruct("C", mfield(1, idl.T("common.K"), "k"))), "../b/common.frugal"),
+					withInc(mfile("main", mstruct("M", mfield(1, idl.T("common.C"), "c"))), "a/common.frugal"),
+				}},
+		}})
+
 	unionDecl := &idl.Decl{Struct: &idl.Struct{Kind: idl.KindUnion, Name: "U", Fields: []*idl.Field{mfield(1, tString, "a"), mfield(2, tI32, "b"), mfield(3, tBool, "c")}}}
 	add(lexClass{Class: "union_members_are_optional", Pinned: "passes",
 		Rule: "every member of a union is optional, whatever requiredness keyword is written (Thrift: 'required field of union set to optional')",
